@@ -260,7 +260,10 @@ def parse_location_step(tokens: TokenTree) -> LocationStep:  # noqa: C901
         tokens, (TokenType.NAME, TokenType.OPEN_PARENS, None, TokenType.CLOSE_PARENS)
     ):
         assert isinstance(tokens[0], Token)
-        assert tokens[0].string == "processing-instruction"
+        if tokens[0].string != "processing-instruction":
+            raise XPathParsingError(
+                message="Unrecognized node test.", position=tokens[0].position
+            )
         target_name = tokens[2][0]
         assert isinstance(target_name, Token)
         node_test = ProcessingInstructionTest(target_name.string[1:-1])
